@@ -48,8 +48,12 @@ enum Pat {
     ElementStartHook,
     /// a processing element releases N tasks in event_end of a message event
     ElementEndHook,
+    /// ... in event_end of a timer wake-up event
+    ElementEndHookOnTimer,
+    /// ... in event_end of the start stage (tasks spawned by that stage)
+    ElementEndHookOnStart,
 }
-const PATS: [Pat; 15] = [
+const PATS: [Pat; 17] = [
     Pat::Sleepers,
     Pat::Chain,
     Pat::NotifyAll,
@@ -65,6 +69,8 @@ const PATS: [Pat; 15] = [
     Pat::ElementConsumes,
     Pat::ElementStartHook,
     Pat::ElementEndHook,
+    Pat::ElementEndHookOnTimer,
+    Pat::ElementEndHookOnStart,
 ];
 
 #[derive(Clone, Copy, Debug, PartialEq, Eq)]
@@ -92,7 +98,10 @@ impl ProcessingElement for Waker {
         }
     }
     fn event_end(&mut self) {
-        if self.pat == Pat::ElementEndHook && now() == 1000 {
+        if matches!(self.pat, Pat::ElementEndHook | Pat::ElementEndHookOnTimer) && now() == 1000 {
+            self.notify.notify_waiters();
+        }
+        if self.pat == Pat::ElementEndHookOnStart && now() == 0 {
             self.notify.notify_waiters();
         }
     }
@@ -127,7 +136,7 @@ impl Mo {
 impl Module for Mo {
     fn reset(&mut self) {}
     fn stack(&self, mut s: ProcessingStack) -> ProcessingStack {
-        if matches!(self.pat, Pat::ElementConsumes | Pat::ElementStartHook | Pat::ElementEndHook) {
+        if matches!(self.pat, Pat::ElementConsumes | Pat::ElementStartHook | Pat::ElementEndHook | Pat::ElementEndHookOnTimer | Pat::ElementEndHookOnStart) {
             s.append(Waker { pat: self.pat, notify: self.notify.clone() });
         }
         s
@@ -160,6 +169,22 @@ impl Module for Mo {
                     });
                 }
                 schedule_in(Message::default().kind(1), Duration::from_secs(1));
+            }
+            Pat::ElementEndHookOnTimer | Pat::ElementEndHookOnStart => {
+                for i in 0..n {
+                    let l = self.log.clone();
+                    let nf = self.notify.clone();
+                    spawn_kind(k, async move {
+                        nf.notified().await;
+                        l.lock().unwrap().push((i as u32, now()));
+                    });
+                }
+                if self.pat == Pat::ElementEndHookOnTimer {
+                    // nothing but a timer wake-up activates the module at 1 s
+                    spawn_kind(k, async move {
+                        sleep(Duration::from_secs(1)).await;
+                    });
+                }
             }
             Pat::ElementConsumes | Pat::ElementStartHook | Pat::ElementEndHook => {
                 for i in 0..n {
@@ -335,7 +360,7 @@ struct Case {
 
 fn expected_time(c: &Case) -> u64 {
     match c.pat {
-        Pat::StartStage => 0,
+        Pat::StartStage | Pat::ElementEndHookOnStart => 0,
         Pat::Restart => 2000,
         _ => 1000,
     }
@@ -351,7 +376,7 @@ fn polls_needed(c: &Case) -> usize {
     match c.pat {
         Pat::Drain => 1,
         Pat::Yield => 1 + c.n,
-        Pat::JoinAll | Pat::TimerThenNotify => c.n + 1,
+        Pat::JoinAll | Pat::TimerThenNotify | Pat::ElementEndHookOnTimer => c.n + 1,
         _ => c.n,
     }
 }
@@ -499,7 +524,7 @@ impl Property for C06 {
                         Pat::StartStage => ctx.hit("start_stage_trigger"),
                         Pat::Sleepers => ctx.hit("timer_trigger"),
                         Pat::NotifyAll => ctx.hit("message_trigger"),
-                        Pat::ElementConsumes | Pat::ElementStartHook | Pat::ElementEndHook => ctx.hit("processing_element_trigger"),
+                        Pat::ElementConsumes | Pat::ElementStartHook | Pat::ElementEndHook | Pat::ElementEndHookOnTimer | Pat::ElementEndHookOnStart => ctx.hit("processing_element_trigger"),
                         _ => {}
                     }
                     match run_case(&c) {
